@@ -217,6 +217,30 @@ def rebuild (o : Obj K) (tol : K) (p n : ℕ) : PyM (Basis K × Mat K) := do
   let cp ← solveC N rhs
   pure (b2, cp)
 
+/-! ## `Curve.error` -/
+
+/-- `Curve.error(target)` with the target given as another curve: per knot span the Gauss–Legendre
+    quadrature of `|x_h − x|²` (`nodes`/`weights` = `leggauss(order+1)`, supplied by the caller) and the
+    RUNNING MAXIMUM over all spans of the pointwise error.  Returns `(err2, err_inf²)` — the square
+    of the max-norm error, because `sqrt` is not a field operation (it is monotone, so
+    `max √e = √ max e`). -/
+def curveError (o target : Obj K) (tol : K) (nodes weights : List K) : PyM (List K × K) := do
+  let knots := ((o.basis 0).knotSpans tol false).toList
+  let spans := List.zip knots.dropLast (knots.drop 1)
+  let step (acc : List K × K) (span : K × K) : PyM (List K × K) := do
+    let (t0, t1) := span
+    let tg := nodes.map (fun x => (x + 1) / 2 * (t1 - t0) + t0)
+    let wg := weights.map (fun w => w / 2 * (t1 - t0))
+    let a ← o.evaluate tol [tg] true
+    let b ← target.evaluate tol [tg] true
+    let dim := a.shape.getLastD 1
+    let err : List K := (List.range tg.length).map (fun i =>
+      (List.range dim).foldl (fun s c => s + (a.get (i * dim + c) - b.get (i * dim + c)) ^ 2) 0)
+    let e2 := (List.zip err wg).foldl (fun s ew => s + ew.1 * ew.2) 0
+    -- err_inf = max(np.max(np.sqrt(error)), err_inf)
+    pure (acc.1 ++ [e2], err.foldl max acc.2)
+  spans.foldlM step ([], 0)
+
 /-! ## Tensor-product interpolation -/
 
 /-- `np.moveaxis(t, axis, 0)`. -/
@@ -250,7 +274,7 @@ def throughConstructor (cp : Tensor K) (pd : ℕ) : PyM (Tensor K) := do
 def chain (Ms : List (Mat K)) (cp : Tensor K) (pd : ℕ) : PyM (Tensor K) :=
   Ms.foldlM (fun cp M => tensordot M cp (pd - 1)) cp
 
-/-- Common prologue of surface/volume `interpolate`/`least_square_fit`:
+/-- Prologue of surface/volume `interpolate`:
     `if len(x.shape) == 2: x = x.reshape(shape + [dim])`. -/
 def gridInput (bases : List (Basis K)) (x : Tensor K) : PyM (Tensor K) :=
   let dim := x.shape.getLastD 1
@@ -282,7 +306,8 @@ def interpolateGrid (bases : List (Basis K)) (tol : K) (u : Option (List (List K
 def leastSquareGridCore (bases : List (Basis K)) (tol : K) (us : List (List K)) (x : Tensor K) :
     PyM (Tensor K) := do
   let pd := bases.length
-  let x ← gridInput bases x
+  -- `if len(x.shape) == 2: x = x.reshape([len(t) for t in u] + [dim])`
+  let x ← if x.shape.length = 2 then reshape x (us.map List.length ++ [x.shape.getLastD 1]) else pure x
   let Nall := ((List.zip bases us).map (fun (b, t) => colloc b tol t 0)).reverse
   let cp ← chain (Nall.map Mat.transpose) x pd
   let invs ← Nall.mapM (fun N => invC (Mat.mul (Mat.transpose N) N))
